@@ -34,10 +34,10 @@ ASSUMPTIONS = [
     "HDF5 writes bypass Python; they are modelled as file absent -> empty -> "
     "half -> all-but-one byte -> complete",
     "recovery procedure: Crop(name, dir); if that raises, or the crop is not "
-    "prepared, or has fewer batch files than num_batches, or a later step "
-    "fails (at most once): re-run the sow script (the same constructor call "
-    "with default autoload, and the same sow call) -> check_bad -> "
-    "grow_missing -> reap",
+    "prepared, or reports fewer sown batches than num_batches: re-run the "
+    "sow script (the same constructor call with default autoload, and the "
+    "same sow call) -> check_bad -> grow_missing -> reap; no step is "
+    "retried",
 ]
 
 COMBOS = {"a": [1, 2, 3], "b": [4, 5]}
@@ -310,31 +310,28 @@ def action(sc, d, wl):
 
 
 def recover(sc, d):
-    """the documented recovery; returns (reaped value, number of re-sows)"""
-    last = None
-    for attempt in (0, 1):
-        try:
-            resown = 0
+    """the documented recovery; returns (reaped value, number of re-sows).
+    Whether the sown files are complete is what the crop itself reports;
+    nothing is retried: an exception anywhere means the recovery failed."""
+    resown = 0
+    crop = None
+    try:
+        crop = sc.fresh_crop(d)
+        if (not crop.is_prepared()
+                or crop.num_sown_batches != crop.num_batches):
             crop = None
-            if attempt == 0:
-                try:
-                    crop = sc.fresh_crop(d)
-                    if (not crop.is_prepared()
-                            or crop.num_sown_batches != crop.num_batches):
-                        crop = None
-                except Exception:
-                    crop = None
-            if crop is None:
-                crop = sc.new_crop(d)
-                sc.sow(crop)
-                resown = 1
-            with core.Silence():
-                crop.check_bad()
-            crop.grow_missing(verbosity=0)
-            return crop.reap(), resown + attempt
-        except Exception as e:  # retry once with a forced re-sow
-            last = e
-    raise last
+    except Exception:
+        # (a crop that cannot even be opened by name is re-sown)
+        crop = None
+    if crop is None:
+        # re-run the sow script (same constructor call, same sow call)
+        crop = sc.new_crop(d)
+        sc.sow(crop)
+        resown = 1
+    with core.Silence():
+        crop.check_bad()
+    crop.grow_missing(verbosity=0)
+    return crop.reap(), resown
 
 
 def probe_state(sc, d, snap, wl, label, earlier_rows, probes=("P1", "P1b", "P2", "P3")):
